@@ -101,6 +101,10 @@ def classify_apply_exception(case, exc):
                 if ln.get("k") in ("jmp", "jne", "call") and \
                         follows_code.get(ln.get("t")) is False:
                     return "refused", "refused:branch-target-not-code"
+    if name == "PaddingError" and len(vocab.NOP[case["isa"]]) > 1:
+        # loud refusal: an alignment requirement that whole nops cannot
+        # establish (the ISA's nop is longer than the gap)
+        return "refused", "refused:padding-not-a-multiple-of-the-nop"
     if name == "AssertionError" and \
             where == "edit.py:_cleanup_modified_blocks":
         return "raised", f"apply-raises:{name}@{where}" + cleanup_context(
@@ -1142,6 +1146,30 @@ def check_functions(run, lst, ob):
                 "key": f"fn:instruction-in-wrong-function:{origin}",
                 "msg": f"{tok.key} at {(si, pos)}: expected {tok.fn} got "
                        f"{got}"})
+    # data a patch brings along (an inline table it jumps over) is data: it
+    # sits in a DataBlock and belongs to no function
+    import gtirb as _g
+    for si, ii, t in lst.all_tokens():
+        if t.t != "D" or t.patch is None or not t.size:
+            continue
+        e_ = case["edits"][t.patch] if 0 <= t.patch < len(case["edits"]) \
+            else None
+        if e_ is None or not lst.block_info[e_["b"]]["code"]:
+            continue
+        bi = bu.intervals[si][ii]
+        cover = [b for b in bi.blocks
+                 if b.offset <= t.ivpos < b.offset + b.size]
+        ctr["patch_data_tokens_checked"] = ctr.get(
+            "patch_data_tokens_checked", 0) + 1
+        if len(cover) != 1:
+            continue      # (C01/C05 judge tiling)
+        b = cover[0]
+        if not isinstance(b, _g.DataBlock):
+            viol.append({"key": "fn:patch-data-in-code-block",
+                         "msg": f"sec {si} iv {ii} +{t.ivpos}"})
+        elif id(b) in owner:
+            viol.append({"key": "fn:patch-data-block-in-function",
+                         "msg": f"sec {si} iv {ii} +{t.ivpos}"})
     # function set: functions with surviving code
     alive = {}
     for si, ii, t in lst.all_tokens():
